@@ -1,8 +1,43 @@
 package checks
 
-// c15PanicFarLine panics from a position that a //line directive places at line 4000 of c15_short.txt, an
-// existing file of one line - the situation of generated code and of source files edited after the build.
-// Whoever prints source context for the frames of a panic must cope with a line that is not there.
-//
+// Panics raised from positions that //line directives place elsewhere - the situation of generated code and of
+// source files edited, moved or replaced after the build. Whoever prints source context for the frames of a
+// panic must cope with whatever is (or is not) at the place a frame names: a line past the end of an existing
+// file, a directory, a path through a plain file, a file that is gone, an empty file, one enormous line.
+// (c15EnterDir sets the scene in the scratch directory the process works in.)
+
+// c15PanicAt raises the panic from the k-th of those positions.
+func c15PanicAt(k int, m string) {
+	switch k % 6 {
+	case 0:
+		c15PanicFarLine(m)
+	case 1:
+		c15PanicInDir(m)
+	case 2:
+		c15PanicThroughFile(m)
+	case 3:
+		c15PanicGone(m)
+	case 4:
+		c15PanicEmpty(m)
+	default:
+		c15PanicHugeLine(m)
+	}
+}
+
 //line c15_short.txt:4000
 func c15PanicFarLine(m string) { panic(m) }
+
+//line c15_dir:10
+func c15PanicInDir(m string) { panic(m) }
+
+//line c15_short.txt/gen.go:5
+func c15PanicThroughFile(m string) { panic(m) }
+
+//line c15_gone.go:7
+func c15PanicGone(m string) { panic(m) }
+
+//line c15_empty.txt:1
+func c15PanicEmpty(m string) { panic(m) }
+
+//line c15_huge.txt:1
+func c15PanicHugeLine(m string) { panic(m) }
